@@ -113,7 +113,38 @@ def m_parse_qsl(qs, *a, **k):
     return _up.parse_qsl(q, *a, **k)
 
 
-for _f in (m_urlparse, m_urlsplit, m_parse_qsl):
+def m_unquote_to_bytes(string):
+    """urllib.parse.unquote_to_bytes on (partly) symbolic input: '%' followed by two hex digits becomes that byte, everything
+    else is kept (invalid escapes are left alone) — forks on the three characters involved"""
+    u = V.unwrap(string)
+    if not V.is_sym(u):
+        return _up.unquote_to_bytes(u)
+    cells = seq_cells(u, type(u))
+    if isinstance(u, SymStr):
+        for c in cells:
+            if not (isinstance(c, int) and c < 128) and not truth(mkbool(z3.ULT(c, 128))):
+                raise Unsupported("unquote_to_bytes of symbolic non-ASCII text")
+        cells = [c if isinstance(c, int) else z3.Extract(7, 0, c) for c in cells]
+    from .models_str import hexval
+
+    out = []
+    i = 0
+    while i < len(cells):
+        c = cells[i]
+        if _is(c, "%") and i + 2 < len(cells) + 0 and i + 2 <= len(cells) - 1 + 0:
+            ok1, v1 = hexval(cells[i + 1] if isinstance(cells[i + 1], int) else z3.ZeroExt(13, cells[i + 1]))
+            ok2, v2 = hexval(cells[i + 2] if isinstance(cells[i + 2], int) else z3.ZeroExt(13, cells[i + 2]))
+            if truth(mkbool(ok1) if not isinstance(ok1, bool) else ok1) and truth(mkbool(ok2) if not isinstance(ok2, bool) else ok2):
+                b = binop("+", binop("*", v1, 16), v2)
+                out.append(b if isinstance(b, int) else z3.simplify(z3.Extract(7, 0, b.e)))
+                i += 3
+                continue
+        out.append(c)
+        i += 1
+    return V.unwrap(SymBytes(out))
+
+
+for _f in (m_urlparse, m_urlsplit, m_parse_qsl, m_unquote_to_bytes):
     _f.__symx_model__ = True
 
-DEFAULT_OVERRIDES.update(urlparse=m_urlparse, urlsplit=m_urlsplit, parse_qsl=m_parse_qsl)
+DEFAULT_OVERRIDES.update(urlparse=m_urlparse, urlsplit=m_urlsplit, parse_qsl=m_parse_qsl, unquote_to_bytes=m_unquote_to_bytes)
